@@ -11,6 +11,7 @@ import WireV.Cmd
 import WireV.Generated.Tables
 import WireV.Rename
 import WireV.Bind
+import WireV.Access
 /-! # WireV.Driver — line protocol of the unit tier (one request per line, one reply per line) -/
 namespace WireV
 
@@ -381,6 +382,36 @@ def runBind (ns : List Nat) : String :=
   | some (s, []) => s
   | _ => "bad-request"
 
+
+/-! `access want #nodes (0 name exported scope pkg importable | 1 #fields (name exported pkg)…)…` -/
+def pANode : P ANode := do
+  let tag ← pNat
+  if tag == 0 then
+    let name ← pNat
+    let exported ← pBool
+    let sc ← pNat
+    let pkg ← pNat
+    let importable ← pBool
+    let scope : AScope := match sc with | 0 => .noPkg | 1 => .pkgName | 2 => .pkgScope | 3 => .local | _ => .member
+    return .ident { name, exported, scope, pkg, importable }
+  else
+    let fs ← pMany (do return ({ name := ← pNat, exported := ← pBool, pkg := ← pNat } : AField))
+    return .lit fs
+
+def runAccess (ns : List Nat) : String :=
+  let p : P String := do
+    let want ← pNat
+    let nodes ← pMany pANode
+    return match accessibleFrom want nodes with
+      | none => "ok"
+      | some (.unexported n) => s!"err unexported {n}"
+      | some (.internal n) => s!"err internal {n}"
+      | some (.notPkgScope n) => s!"err notpkgscope {n}"
+      | some (.setsUnexported n) => s!"err setsunexported {n}"
+  match p.run ns with
+  | some (s, []) => s
+  | _ => "bad-request"
+
 /-- `rename nfs =name… nocc (=name obj|- flags)…`; flags: `r` renamable, `s` silent + renamable, `n` neither -/
 def runRename (ws : List String) : String :=
   match ws with
@@ -484,6 +515,9 @@ def handleLine (line : String) : String :=
   | "path" :: rest => runPath rest
   | "fields" :: rest => runFields rest
   | "rename" :: rest => runRename rest
+  | "access" :: rest => match parseNats rest with
+    | some ns => runAccess ns
+    | none => "bad-request"
   | "bind" :: rest => match parseNats rest with
     | some ns => runBind ns
     | none => "bad-request"
